@@ -178,8 +178,14 @@ void harness(void)
     CHECK(rc == EOK ? g_hcalls == 0 : g_hcalls == 1, "C05: handler invoked exactly once iff the call fails");
     CHECK(rc == EOK || g_herr == rc, "C05: handler receives the code that is returned");
     int early = v_dnull || (v_zero && !zero_req) || (v_max && !zero_req) || (v_ovf && !zero_req);
-    if (!zero_req && (early || v_snull || v_val || v_n || v_sovf))
-        CHECK(rc != EOK, "C05: violated argument constraint is not reported");
+    if (!zero_req && (early || v_snull || v_val || v_n || v_sovf)) {
+        if (mul_ovf)
+            CHECK(rc != EOK, "C05: element count whose byte size wraps around 2^64 is accepted");
+        else if (IS_SET && !IS_ZERO && IN.bos_known && v_n && !v_dnull && !v_val && nbytes <= dext)
+            CHECK(rc != EOK, "C05: n above the declared dmax is accepted because the known object is larger (dmax := destbos)");
+        else
+            CHECK(rc != EOK, "C05: violated argument constraint is not reported");
+    }
     if (rc != EOK && !zero_req)
         CHECK((v_dnull && rc == ESNULLP) || (v_zero && rc == ESZEROL) || (v_max && rc == ESLEMAX) ||
               (v_ovf && (rc == EOVERFLOW || rc == ESLEMAX)) || (v_snull && rc == ESNULLP) || (v_val && rc == ESLEMAX) ||
@@ -190,7 +196,10 @@ void harness(void)
         CHECK(arena[k] == old_k, "C05: size above RSIZE_MAX_MEM must be rejected before dest is touched");
 
     /* C01: nothing outside dest[0..dmax) is ever modified */
-    CHECK(inside_d || arena[k] == old_k, "C01: byte outside dest[0..dmax) modified");
+    if (IS_SET && !IS_ZERO && IN.bos_known && !v_dnull && k >= doff)
+        CHECK(inside_d || arena[k] == old_k, "C01: byte beyond the declared dmax (inside the known object) modified: dmax := destbos");
+    else
+        CHECK(inside_d || arena[k] == old_k, "C01: byte outside dest[0..dmax) modified");
     if (zero_req) {
         CHECK(rc == EOK || v_dnull, "C05: zero-length request must succeed");
         CHECK(arena[k] == old_k, "C01: zero-length request modified memory");
